@@ -4,14 +4,16 @@
 (* An identity value is declared for public key "D"; its private-key file     *)
 (* holds key Stored ("D" when the file belongs to the declared key, "A" when  *)
 (* it does not).  A call presents a file (a sequence of stanza addressees,    *)
-(* "D" | "A" | "U" = unrelated key of the same type | "X" = another type) and *)
+(* "D" | "A" | "U" = unrelated key of the same type | "X" = another type |    *)
+(* "T" = a stanza of the OTHER SSH key type that carries D's public-key tag:  *)
+(* type and tag together address a stanza, so "T" is not addressed to D) and  *)
 (* the passphrase callback answers "right" | "wrong" | "error" if asked.      *)
 (* One action per step of Unwrap: Match, Prompt, ParseKey, Validate, Cache.   *)
 (* CacheBeforeValidate = TRUE is the code before the F8 fix.                  *)
 EXTENDS Integers, Sequences, FiniteSets, TLC, Json
 
 CONSTANTS Stored,               \* "D" or "A"
-          Files,                \* set of files (sequences over {"D","A","U","X"})
+          Files,                \* set of files (sequences over {"D","A","U","X","T"})
           MaxCalls,
           CacheBeforeValidate   \* deviation switch
 
